@@ -61,6 +61,16 @@ CHECKS = {
              "with throwing attempts; departures must observe complete arrivals, completion exactly once per phase, no stuck waiter.",
         note="Shadow counters move before the real arrival, so an early release observed through them is real; interleavings sampled.",
         ref="DESIGN.md section 2, C09"),
+    "C13": dict(
+        technique="runtime monitoring: body-finished flags checked at join()/destructor return, handle-state and misuse conformance, "
+                  "unwinding probe recording where an interruption was delivered, quiescence/stall watchdog; TSan as extra oracle",
+        text="Exploration: thousands of pika::thread create/join rounds per case with all join-vs-termination timings (incl. the "
+             "exit-callback gap widened by slow-destructor arguments and hook delays), moved handles, grandchildren, double/self/"
+             "post-detach joins, jthread destructor semantics, interruption requested before/inside/after disable_interruption scopes "
+             "with bystanders, and interruption of a thread sitting in yield().",
+        note="pika refuses interrupt() while the target disabled interruption (counts as not delivered); D12 (shared-priority handles "
+             "not joinable) is a listed known finding; D9 fixed.",
+        ref="DESIGN.md section 2, C13"),
 }
 
 NOT_YET = "not claimed yet: harness under construction in this session (see DESIGN.md section 2)"
